@@ -119,6 +119,11 @@ Definition item_holds (univ : list Z) (m : mon) (it : item) : bool * mon :=
                   if mem id (m_started m) then true else match fin with Some (RErr EDupKey) => true | _ => false end
               | _, _ => true end, m')
       end
+  | GCaller _, AStep _ _ _ =>
+      (* a call made by a caller's own goroutine (no run of the machine has such a label): the monitor keeps judging
+         what the caches hold against the store *)
+      let m' := mkMon (m_queued m) (m_done m) (m_started m) (m_store_ids m) (m_committed m) st in
+      (coherent3 univ (inflight_key (m_queued m') (m_done m')) ca st (m_committed m'), m')
   | GStop, APanic =>
       (* not an observation of the implementation: the harness marks a run it had to give up (a call that did not
          return within its bound, a signal it could not attribute) - never accepted, and no verdict on the property *)
@@ -278,7 +283,7 @@ Lemma uinv_gstep c deep g seen l g' a : minv g -> uinv g seen -> gstep c deep g 
   (match l, a with GCall j, AQueued => ~ In (j_id j) seen | _, _ => True end) ->
   uinv g' (match l, a with GCall j, AQueued => j_id j :: seen | _, _ => seen end).
 Proof.
-  intros Hm [Hs Hu] Hg Hfresh. destruct l as [j|w0|]; cbn [gstep] in Hg.
+  intros Hm [Hs Hu] Hg Hfresh. destruct l as [j|w0| |cid]; cbn [gstep] in Hg; [| | |discriminate].
   - set (wj := loc_of c (key_of (j_op j))) in *. destruct (wj <? 0).
     { inversion Hg; subst. split; assumption. }
     destruct (wcall deep (g wj) j) as [s' a'] eqn:Ew. inversion Hg; subst g' a'; clear Hg.
@@ -329,7 +334,7 @@ Qed.
 
 Lemma sinv_gstep c deep g l g' a : sinv g -> gstep c deep g l = Some (g', a) -> sinv g'.
 Proof.
-  intros Hs Hg. destruct l as [j|w0|]; cbn [gstep] in Hg.
+  intros Hs Hg. destruct l as [j|w0| |cid]; cbn [gstep] in Hg; [| | |discriminate].
   - set (wj := loc_of c (key_of (j_op j))) in *. destruct (wj <? 0); [inversion Hg; subst; exact Hs|].
     destruct (wcall deep (g wj) j) as [s' a'] eqn:Ew. inversion Hg; subst g' a'; clear Hg.
     intros w r Hc Hst. destruct (Z.eq_dec w wj) as [->|Hne]; [|rewrite updm_other in Hc by exact Hne; eapply Hs; eauto].
@@ -680,7 +685,7 @@ Theorem rel_step g m seen tr l a g' :
 Proof.
   intros Hm Hri Hsi Hu Hr Hg Hkey Hfresh.
   pose proof (minv_gstep _ _ _ _ _ _ Hm Hg) as Hm'.
-  destruct l as [j|w0|].
+  destruct l as [j|w0| |cid]; [| | |cbn [gstep] in Hg; discriminate].
   - (* ---------------- a call ---------------- *)
     cbn [gstep] in Hg. set (wj := loc_of c (key_of (j_op j))) in *.
     destruct (wj <? 0) eqn:En.
